@@ -976,6 +976,14 @@ func (p *ValidateTxAndPayClaimInvoiceAction) Execute(services *SwapServices, swa
 				policy.MaxTotalCLTVDelta,
 			)
 			if err != nil {
+				// The result of an earlier attempt may have been lost (rpc
+				// timeout, closed stream, restart). Ask the node about the
+				// fate of that payment before treating the invoice as
+				// unpaid: this does not create another HTLC.
+				if recovered, rerr := lc.RecoverClaimPayment(swap.OpeningTxBroadcasted.Payreq); rerr == nil && recovered != "" {
+					swap.ClaimPreimage = recovered
+					return Event_ActionSucceeded
+				}
 				log.Infof("error trying to pay invoice: %v, retry...", err)
 				payErr = err
 				// Another round!
